@@ -914,7 +914,7 @@ pub fn run(tier: Tier) -> i32 {
         coverage: json!({
             "evaluations": cnt.evals.load(Ordering::Relaxed) + cnt.lists.load(Ordering::Relaxed),
             "distinct_nontrivial": cnt.nontrivial.load(Ordering::Relaxed),
-            "rule": "all arm lists of length <= L over a per-type pattern alphabet (identifier, literals, inclusive/exclusive ranges with adjacent/overlapping/out-of-type end points, enum/tuple/struct/nested patterns with `..` and reordered fields); verdict and per-value arm selection compared with a brute-force matcher over the whole 8-bit domain or one representative per region induced by all end points +-1; non-trivial = accepted list whose circuit produced >= 2 distinct outputs",
+            "rule": "all arm lists of length <= L over a per-type pattern alphabet (identifier, literals, inclusive/exclusive ranges with adjacent/overlapping/out-of-type end points, enum/tuple/struct/nested patterns with `..` and reordered fields); verdict and per-value arm selection compared with a brute-force matcher over the whole 8-bit domain or one representative per region induced by all end points +-1; every accepted list of >= 2 arms is also compiled in a second form (the match bound by an unannotated `let`, arm values 1, 4, 7, .. written without a suffix, the last arm a u8 parameter) and evaluated on the same domain; non-trivial = accepted list whose circuit produced >= 2 distinct outputs",
             "samples": samples,
             "arm_lists": cnt.lists.load(Ordering::Relaxed),
             "accepted": cnt.accepted.load(Ordering::Relaxed),
